@@ -27,6 +27,7 @@ def hive_reject_job(args):
     fp = use_repo()
     import pandas as pd
     d = os.path.join(base, "r%d" % jid, "ds")
+    shutil.rmtree(os.path.dirname(d), ignore_errors=True)      # a re-run of this job starts clean
     os.makedirs(os.path.dirname(d))
     out = {"jid": jid, "viol": [], "evals": 0, "skipped": None}
     try:
@@ -164,6 +165,7 @@ def catalogue_job(args):
     fp = use_repo()
     import pandas as pd
     root = os.path.join(base, "k%d" % jid)
+    shutil.rmtree(root, ignore_errors=True)      # a re-run of this job (after a time-out) starts clean
     os.makedirs(root)
     out = {"jid": jid, "viol": [], "evals": 1, "na": False}
     try:
@@ -206,6 +208,7 @@ def fresh_job(args):
     fp = use_repo()
     import pandas as pd
     root = os.path.join(base, "w%d" % jid)
+    shutil.rmtree(root, ignore_errors=True)      # a re-run of this job (after a time-out) starts clean
     os.makedirs(root)
     out = {"jid": jid, "viol": [], "evals": 1}
     try:
